@@ -138,6 +138,19 @@ Definition snap_of_entry (c e a : Z) (l : list snap_entry) : option snap :=
   end.
 Definition events_for (e a : Z) (l : list event) : list event :=
   filter (fun x => Z.eqb (e_target x) e && Z.eqb (e_action x) a) l.
+(* an operation between frames must not change what is polled of the instances it neither builds nor removes
+   (a holder leaving a shared context, a rebuild of another type, a despawn, ...): the "state after the previous
+   frame" that the next frame starts from is the one polled before the operation *)
+Definition touched_by (c e : Z) (o : out) : bool :=
+  if ctx_shared c then existsb (fun p => Z.eqb (fst p) c) (x_built o)
+  else existsb (fun p => Z.eqb (fst p) c && Z.eqb (snd p) e) (x_built o).
+Definition ops_leave_others (before o : out) : bool :=
+  forallb (fun s => match s with
+                    | sn c e a (Some d) =>
+                        touched_by c e o ||
+                        match snap_of_entry c e a (x_snaps o) with Some d' => snap_eqb d d' | None => true end
+                    | _ => true
+                    end) (x_snaps before).
 Definition state_max (a b : state) : state := if Nat.leb (state_rank a) (state_rank b) then b else a.
 (* merged configuration of an action that is bound several times in one instance *)
 Definition merged_actions (s : inst_spec) : list abind := in_binds (instantiate s).
